@@ -86,7 +86,11 @@ def forms_and_large(ctx, ids, cases):
         if s is not None:
             for j, m in enumerate(sd.METRICS):
                 if sd.rel_scores(o, m):
-                    sd.threshold_event(ev, s, o, m, [1, 2], g, form=forms[(k + j) % 4])
+                    if (k + j) % 5 == 4:       # targets in random order (1-D or 2-D)
+                        nt = len(sd.targets(o, m, [1, 2]))
+                        sd.threshold_event(ev, s, o, m, [1, 2], g, order=rnd.permutation(nt))
+                    else:
+                        sd.threshold_event(ev, s, o, m, [1, 2], g, form=forms[(k + j) % 4])
         out += evs
     for k, n in enumerate([150, 1200] if ctx.tier == "quick" else [150, 400, 1200, 3000]):
         vals = rnd.randint(0, max(10, n // 5), n)
@@ -105,6 +109,26 @@ def forms_and_large(ctx, ids, cases):
                 ks = sorted(set(int(x) for x in rnd.randint(0, 2 * N + 1, 12)) | {0, 1, 2 * N - 1, 2 * N})
                 tg = [Fraction(kk, 2 * N) for kk in ks] + [Fraction(-1, 3), Fraction(4, 3)]
                 sd.threshold_event(ev, s, o, m, [], g, only_targets=tg)
+        out += evs
+    # objects of 1e5 .. 1e6 scores: judged on counts alone (targets within a few samples of both ends of
+    # the scale, where "close to 0/1" is not "equal to 0/1", and a random interior sample)
+    from score_analysis import Scores
+    for k, (npos, nneg, ep, en) in enumerate([(400000, 300000, 0, 0), (250000, 400000, 100000, 7)]
+                                             if ctx.tier == "quick" else
+                                             [(400000, 300000, 0, 0), (250000, 400000, 100000, 7),
+                                              (1000000, 1000000, 1000000, 0), (600000, 500000, 3, 900000)]):
+        cid = len(cases)
+        cases.append({"kind": "big", "npos": npos, "nneg": nneg, "ep": ep, "en": en})
+        evs = []
+        ev = sd.make_ev(evs, ids, cid, g)
+        sc, ec = ["pos", "neg"][k % 2], ["pos", "neg"][(k // 2 + 1) % 2]
+        s = Scores(rnd.permutation(npos) / float(npos), (rnd.permutation(nneg) + 0.25) / float(nneg) - 0.3,
+                   nb_easy_pos=ep, nb_easy_neg=en, score_class=sc, equal_class=ec)
+        for m in sd.METRICS:
+            pop = {"tpr": npos + ep, "fnr": npos + ep, "tnr": nneg + en, "fpr": nneg + en}.get(m, npos + nneg + ep + en)
+            ks = set(range(-2, 26)) | {2 * pop - j for j in range(-2, 26)} | \
+                {int(x) for x in rnd.randint(0, 2 * pop, 10)}
+            sd.threshold_big_event(ev, s, m, pop, ks)
         out += evs
     return out
 
